@@ -26,7 +26,8 @@ func init() { Families["call"] = func() Family { return callFam{} } }
 var callArgDescs = mustParse(`<< <<"dec", FALSE, <<7>>, 0>>, <<"dec", FALSE, <<2,7,5>>, -2>>, <<"dec", TRUE, <<2,7,5>>, -2>>, <<"str", <<97,98>>>>, <<"bool", TRUE>>, <<"nil">>,
   <<"slice", << <<"dec", FALSE, <<1>>, 0>>, <<"dec", FALSE, <<2,5>>, -1>> >>>>, <<"slice", << <<"str", <<97>>>>, <<"str", <<98>>>> >>>>,
   <<"map", [k |-> <<"int", 1>>]>>, <<"time", 19000, 0, 0>>, <<"dec", FALSE, <<3>>, 2>>, <<"slice", <<>>>>,
-  <<"strs", << <<97>>, <<98>> >>>>, <<"ints", <<1, 2>>>> >>`).([]any)
+  <<"strs", << <<97>>, <<98>> >>>>, <<"ints", <<1, 2>>>>,
+  <<"slice", << <<"dec", FALSE, <<1>>, 0>>, <<"nil">>, <<"str", <<97>>>> >>>> >>`).([]any)
 
 var kindTypes = map[string]reflect.Type{
 	"string": reflect.TypeOf(""), "bool": reflect.TypeOf(true), "int": reflect.TypeOf(int(0)), "int8": reflect.TypeOf(int8(0)),
